@@ -264,7 +264,7 @@ def sd_contracts(dual=False):
     cs.append(Contract(F_SD, cls + ".InsertFirstDataItem",
                        params={"leftDataItem": "ref:SearchDataItem", "rightDataItem": "ref:SearchDataItem"}, result="none",
                        modifies=["rightDataItem._SearchDataItem__leftPoint", "leftDataItem._SearchDataItem__rightPoint",
-                                 "elems(self._allTrials)", "self._SearchData__firstDataItem", "self.gseq", "self.gn", "self.gpos"],
+                                 "elems(self._allTrials)", "len_(self._allTrials)", "self._SearchData__firstDataItem", "self.gseq", "self.gn", "self.gpos"],
                        allocates=False,
                        requires=["self.gn == 0 and self._allTrials is not None and vlen(self._allTrials) == 0",
                                  "leftDataItem is not rightDataItem",
@@ -307,7 +307,7 @@ def sd_contracts(dual=False):
                        doc="the most recently appended item"))
     # -- InsertDataItem
     ins_mods = ["newDataItem._SearchDataItem__leftPoint", "newDataItem._SearchDataItem__rightPoint",
-                "elems(self._allTrials)", "self.curIter", "self.gseq", "self.gn", "self.gpos"] + qmods
+                "elems(self._allTrials)", "len_(self._allTrials)", "self.curIter", "self.gseq", "self.gn", "self.gpos"] + qmods
     common_req = WF + qinv + unb + ["not " + member("newDataItem"),
                                      "forall(0, self.gn, lambda k: self.gseq[k] is not newDataItem)"]
     hint_req = ["rightDataItem is not None", member("rightDataItem"), "self.gpos[rightDataItem] >= 1",
@@ -323,7 +323,10 @@ def sd_contracts(dual=False):
                  "self.gn == old(self.gn) + 1 and self.gseq == seq_insert(old(self.gseq), gk, newDataItem)",
                  "self.gseq[gk] is newDataItem and self.gseq[gk + 1] is old(self.gseq[gk])",
                  "forall(0, gk, lambda k: self.gseq[k] is old(self.gseq[k]))",
-                 "forall(gk + 1, self.gn, lambda k: self.gseq[k] is old(self.gseq[k - 1]))"]
+                 "forall(gk + 1, self.gn, lambda k: self.gseq[k] is old(self.gseq[k - 1]))",
+                 "forall(gk, old(self.gn), lambda k: self.gseq[k + 1] is old(self.gseq[k]))",
+                 # membership is preserved (positions of the items to the right move by one)
+                 "forall(0, old(self.gn), lambda k: %s)" % member("old(self.gseq[k])")]
 
     def queue_post(q, attr, flag):
         # the new item is queued with its current characteristic; with a hint the right neighbour is queued again
